@@ -42,7 +42,7 @@ Example C04_alloc_bound_nonvacuous :
   exists eff, snd (process_message corr_q scale_q inflate_none pw_none c (set_state (init_state c) c04_st_Normal)
                      (mkReader [6; 0; 0; 0; 0; 0; 0; 3; 97; 98; 99] [] false false false false)) = eff /\
               In (Alloc 3) eff.
-Proof. split; [repeat split; vm_compute; congruence|]. eexists. split; [vm_compute; reflexivity|]. cbn. tauto. Qed.
+Proof. split; [apply cfg_ok_w48|]. eexists. split; [vm_compute; reflexivity|]. cbn. tauto. Qed.
 
 (* file transfer not permitted: the message allocates nothing *)
 Theorem C04_alloc_ft_denied : forall c s r v r' eff,
@@ -68,11 +68,35 @@ Proof. vm_compute. tauto. Qed.
    the width 0 is refused) and d5a464d (empty update requests are ignored); [source_is_repaired] ties the
    flags to the source this run was regenerated from.  It was refuted for the code before those commits:
    see the ..._refuted theorems below, kept as regression witnesses. *)
-Theorem C04_source_is_repaired :
+(* bookkeeping, not a property theorem: the regenerated markers of the three repaired texts exist (their
+   values carry no content - generation fails when the text is gone) *)
+Lemma C04_source_is_repaired :
   c04_src_scale_rejects_width0 = 0 /\ c04_src_peek_short_count = 0 /\ c04_src_fur_ignores_empty = 0.
 Proof. exact source_is_repaired. Qed.
 
+(* every rectangle requested since the last update, whatever the number of requests, in every state a
+   session of the repaired code can reach (run_conn with any stream and any fuel, hence after every prefix of
+   the stream): none of the per-rectangle computations of rfbSendFramebufferUpdate divides by zero or reads
+   outside the rectangle buffer.  Encodings: Raw, RRE, CoRRE, Hextile, Zlib, Ultra, ZRLE, ZYWRLE; for Tight the
+   count function is rfbNumCodedRectsTight (C03's translated function), not covered here. *)
 Theorem C04_no_div_zero : forall o_corr_f o_scale o_inflate o_pw c fuel r obs s' r' ok v r'' eff,
+  cfg_ok c -> fpu_ok o_corr_f -> repaired c -> reader_bytes_ok r ->
+  run_conn o_corr_f o_scale o_inflate o_pw c fuel (init_state c) r = (obs, Some s', r', ok) ->
+  update_all o_corr_f c s' r' = (v, r'', eff) ->
+  Forall q_safe eff.
+Proof. exact no_div_zero_sessions_all. Qed.
+
+(* the same for ANY non-empty rectangle inside the screen - whichever rectangles the region code makes of the
+   requests - in any state satisfying the invariant *)
+Theorem C04_no_div_zero_any_rect : forall o_corr_f c,
+  cf_w c <= 65535 -> cf_h c <= 65535 -> fpu_ok o_corr_f ->
+  forall s q r v r' eff,
+  inv c s -> rect_in (cf_w c) (cf_h c) q -> reader_bytes_ok r ->
+  run c (rect_prog o_corr_f c s q (fun _ => Ret tt)) r = (v, r', eff) -> Forall q_safe eff.
+Proof. exact any_rect_safe. Qed.
+
+(* the one-rectangle update the correspondence run compares (announced count included) *)
+Theorem C04_no_div_zero_single_rect : forall o_corr_f o_scale o_inflate o_pw c fuel r obs s' r' ok v r'' eff,
   cfg_ok c -> cf_w c <= 65535 -> cf_h c <= 65535 -> fpu_ok o_corr_f -> repaired c ->
   reader_bytes_ok r ->
   run_conn o_corr_f o_scale o_inflate o_pw c fuel (init_state c) r = (obs, Some s', r', ok) ->
@@ -100,13 +124,9 @@ Theorem C04_scaled_inv_fixed : forall o_corr_f o_scale o_inflate o_pw c fuel r o
   inv c s' /\ reader_bytes_ok r'.
 Proof. exact scaled_inv_fixed. Qed.
 Example C04_no_div_zero_partial_nonvacuous :
-  (* a trivial FPU satisfying the hypothesis, and a state satisfying the invariant *)
-  fpu_ok (fun _ _ _ _ _ _ _ _ => (0, 0, 1, 1)) /\ inv (cfg_w 4 8 false false) (init_state (cfg_w 4 8 false false)).
-Proof.
-  split.
-  - unfold fpu_ok. intros. cbn. lia.
-  - apply inv_init. repeat split; vm_compute; congruence.
-Qed.
+  (* the exact-arithmetic correction satisfies the FPU hypothesis; the initial state satisfies the invariant *)
+  fpu_ok corr_q /\ inv (cfg_w 4 8 false false) (init_state (cfg_w 4 8 false false)).
+Proof. split; [exact fpu_ok_corr_q|apply inv_init; apply cfg_ok_w48]. Qed.
 Example C04_no_div_zero_fixed_nonvacuous :
   session (cfg_w 4 8 true false) f2_stream = Some [Div 32768 4; Div 7 8192; Write 4].
 Proof. exact f2_fixed. Qed.
@@ -152,6 +172,15 @@ Theorem C04_total_wait_refuted :
     let '(v, _, eff) := process_message corr_q scale_q inflate_none pw_none c s r in
     v = Some s /\ sum_wait eff > 6 * timeout_of c.
 Proof. exact total_wait_refuted. Qed.
+
+(* second refutation, write side (F8b): a 3.8 client that stopped reading and fails VNC authentication costs
+   two full write time-outs in one call (result word, then reason string) *)
+Theorem C04_total_wait_refuted_stalled_auth :
+  exists c s r, cfg_ok c /\ reader_bytes_ok r /\ r_stalled r = true /\
+    let '(_, _, eff) := process_message corr_q scale_q inflate_none pw_none c s r in
+    sum_wait eff = 2 * timeout_of c /\
+    Forall (wait_le (Z.max (timeout_of c) c04_write_slice_ms)) eff.
+Proof. exact total_wait_refuted_stalled_auth. Qed.
 
 (* ---- segmentation ------------------------------------------------------------------------------ *)
 (* What one rfbProcessClientMessage call does - the resulting state and every effect except the waits
